@@ -446,16 +446,21 @@ class Grid(object):
         h = xxhash.xxh64()
         h.update(self._coordinate_system.encode())
 
+        # Hash the values as contiguous float64 arrays, with -0.0 normalized to 0.0, so that
+        # grids that compare equal always have the same hash.
+        def as_bytes(arr):
+            return np.ascontiguousarray(arr, dtype='float') + 0.0
+
         if self.is_regular:
-            h.update(self.delta)
-            h.update(self.dims)
-            h.update(self.zero)
+            h.update(as_bytes(self.delta))
+            h.update(np.ascontiguousarray(self.dims, dtype='int64'))
+            h.update(as_bytes(self.zero))
         elif self.is_separated:
             for s in self.separated_coords:
-                h.update(s)
+                h.update(as_bytes(s))
         else:
             for s in self.coords:
-                h.update(s)
+                h.update(as_bytes(s))
 
         return h.intdigest()
 
